@@ -407,10 +407,11 @@ func (c *Ctx) allCallersEnsureFunc(fn *ssa.Function, p *ssa.Parameter, ensures m
 }
 
 // functionCallArgs: what is stored into the argument slice of the reflective call.
-//   (i)  every element is reflect.Zero(...) or reflect.ValueOf(x) with x known to be non-nil there - reflect.ValueOf(nil)
-//        is the zero Value and Call panics on it ("Call using zero Value argument");
-//   (ii) every way from a ValueOf store back to the filling loop's header, or on to the call, passes an AssignableTo
-//        test of the element's type - Call panics on an argument that is not assignable to the parameter type.
+//
+//	(i)  every element is reflect.Zero(...) or reflect.ValueOf(x) with x known to be non-nil there - reflect.ValueOf(nil)
+//	     is the zero Value and Call panics on it ("Call using zero Value argument");
+//	(ii) every way from a ValueOf store back to the filling loop's header, or on to the call, passes an AssignableTo
+//	     test of the element's type - Call panics on an argument that is not assignable to the parameter type.
 func (c *Ctx) functionCallArgs(rule string, fn *ssa.Function, hcall *ssa.Call) {
 	if len(hcall.Call.Args) < 2 {
 		return
